@@ -46,7 +46,6 @@ package migrate
 //@   pure
 //@ extern func (f File) Desc() (s string)
 //@   pure
-//@ extern func (d Dir) Checksum() (h HashFile, err error)
 //@ extern func (l Logger) Log(en LogEntry)
 //@ extern func (h hash.Hash) Write(p []byte) (n int, err error)
 //@   ensures err == nil
@@ -237,3 +236,36 @@ package migrate
 //@   loop 1 invariant skipped == nil || GvcLoopFresh(skipped)
 //@   loop 1 invariant (forall p int :: 0 <= p && p < len(skipped) ==> skipped[p] != nil)
 //@   loop 1 invariant (forall p int :: 0 <= p && p < len(skipped) ==> !gvcHasRev(skipped[p].Version()))
+
+// ---------------------------------------------------------------------------------------
+// C06: directory integrity
+
+//@ import "io/fs"
+//@ ghost var GvcStoredSum HashFile
+//@ ghost var GvcComputedSum HashFile
+//@ ghost var GvcReadErr error
+//@ ghost var GvcChecksumErr error
+//@ ghost var GvcChecksumCalls int
+//@ spec func gvcHFEqual(a, b HashFile) bool {
+//@ spec 	return len(a) == len(b) && (forall i int :: 0 <= i && i < len(a) ==> a[i] == b[i])
+//@ spec }
+
+//@ func readHashFile(dir Dir) (hf HashFile, err error)
+//@   trusted
+//@   effect GvcReadErr = err; if err == nil { GvcStoredSum = hf }
+//@ extern func (d Dir) Checksum() (h HashFile, err error)
+//@   effect GvcChecksumErr = err; GvcChecksumCalls++; if err == nil { GvcComputedSum = h }
+
+//@ func (f HashFile) Sum() (s string)
+//@   trusted
+//@   pure
+
+//@ func Validate(dir Dir) (err error)
+//@   requires dir != nil
+//@   modifies GvcStoredSum, GvcComputedSum, GvcReadErr, GvcChecksumErr, GvcChecksumCalls, GvcFiles
+//@   ensures nil-implies-equal: err == nil && GvcReadErr == nil ==> GvcChecksumCalls != old(GvcChecksumCalls) && gvcHFEqual(GvcStoredSum, GvcComputedSum)
+//@   ensures mismatch-is-checksum-error: GvcReadErr == nil && GvcChecksumCalls != old(GvcChecksumCalls) && GvcChecksumErr == nil && !gvcHFEqual(GvcStoredSum, GvcComputedSum) ==>
+//@           GvcIs[*ChecksumError](err) && err.(*ChecksumError).Total == len(GvcStoredSum) &&
+//@           2 <= err.(*ChecksumError).Line && err.(*ChecksumError).Line <= len(GvcStoredSum)+2
+//@   loop 1 invariant 0 <= loopk && loopk <= len(ac) && loopk <= len(ex)
+//@   loop 1 invariant (forall j int :: 0 <= j && j < loopk ==> ex[j] == ac[j])
